@@ -8,7 +8,8 @@ DEFAULT = dict(
     typed=True, subtypes=True, constants=True, numeric=True, equality=True, negative=True,
     nested=True, forall_pre=True, when=True, forall_eff=True, division=True,
     max_actions=2, max_params=3, max_arity=2, group_params=True,
-    rich_nested_numeric=False,   # numeric conditions inside nested/when/forall groups beyond (cmp fterm const|fterm)
+    rich_nested_numeric=False,   # numeric conditions inside nested/forall groups beyond (cmp fterm const|fterm)
+    rich_when_numeric=True,      # the same for the conditions of when / forall-when effects
     lifted_repeat=False,         # lifted atoms / function terms with a repeated argument (known finding trigger)
     max_leaves=3, empty_pre=True, p_when=0.45, p_forall_eff=0.35,
 )
@@ -149,6 +150,8 @@ class FGen:
         op = ch.choice(["<", "<=", ">", ">=", "="])
         if simple:
             rhs = self.number() if ch.flag(0.6) else (self.fterm(scope) or self.number())
+            if rhs == ft:
+                rhs = self.number()
             return [op, ft, rhs]
         for _ in range(5):
             a, b = self.expr(scope, 2), self.expr(scope, 2)
@@ -263,17 +266,17 @@ class FGen:
 
     def cond(self, scope):
         ch = self.ch
-        simple = not self.ft["rich_nested_numeric"]
+        simple = not self.ft["rich_when_numeric"]
         k = ch.weighted([(4, "leaf"), (3, "and"), (2 if self.ft["nested"] else 0, "nested")])
         if k == "leaf":
-            x = self.leaf(scope, False)
+            x = self.leaf(scope, simple)
             if x is not None:
                 return x
         if k == "nested":
             g = self.group(scope, 0)
             if g is not None:
-                return ["and"] + self.leaves(scope, 0, 1, False) + [g]
-        xs = self.leaves(scope, 1, 2, False)
+                return ["and"] + self.leaves(scope, 0, 1, simple) + [g]
+        xs = self.leaves(scope, 1, 2, simple)
         if not xs:
             a = self.atom(scope)
             xs = [a] if a else []
